@@ -16,7 +16,7 @@ mod oracle;
 pub const OP_NAMES: &[&str] = &[
     "NewClient", "TickClient", "TickServer", "Deliver", "Drop", "DropAll", "DeliverAll", "GenPayload", "ClientDisconnect", "ServerDisconnect",
     "SetMaxClients", "Junk", "Mutate", "Replay", "ForgeRequest", "ForgeResponse", "ForgeSession", "TamperEnum", "RestartServer", "Teleport",
-    "TokenSurgery", "CrashClient", "GenBurst", "CrossResponse", "StaleHandshake", "FloodThenSteal", "ForgeExpiry",
+    "TokenSurgery", "CrashClient", "GenBurst", "CrossResponse", "StaleHandshake", "FloodThenSteal", "ForgeExpiry", "Reframe",
 ];
 pub const K_NEWCLIENT: u8 = 0;
 pub const K_TICKCLIENT: u8 = 1;
@@ -45,6 +45,7 @@ pub const K_CROSSRESP: u8 = 23;
 pub const K_STALEHS: u8 = 24;
 pub const K_FLOODSTEAL: u8 = 25;
 pub const K_FORGEEXPIRY: u8 = 26;
+pub const K_REFRAME: u8 = 27;
 
 pub const T_REQUEST: u8 = 0;
 pub const T_DENIED: u8 = 1;
@@ -525,7 +526,7 @@ impl World for WorldB {
     }
     fn panic_props(&self, op: Option<&Op>) -> Vec<String> {
         let mut v = vec!["C07".to_string()];
-        let hostile_op = op.map(|o| matches!(o.k, K_JUNK | K_MUTATE | K_REPLAY | K_FORGEREQ | K_FORGERESP | K_FORGESESS | K_TAMPER | K_TOKENSURGERY | K_FORGEEXPIRY)).unwrap_or(false);
+        let hostile_op = op.map(|o| matches!(o.k, K_JUNK | K_MUTATE | K_REPLAY | K_FORGEREQ | K_FORGERESP | K_FORGESESS | K_TAMPER | K_TOKENSURGERY | K_FORGEEXPIRY | K_REFRAME)).unwrap_or(false);
         if !hostile_op {
             for p in ["C04", "C05", "C10", "C17", "C18", "C19"] {
                 v.push(p.to_string());
